@@ -18,7 +18,7 @@ import (
 
 const (
 	maxFiles = 256
-	maxOps   = 64
+	maxOps   = 160
 	maxLog   = 8192
 )
 
